@@ -1319,6 +1319,142 @@ class LinkedGen:
                         out.append(base + pr + tail)
         return out
 
+    # ------------------------------------------------------------------ scale
+    def scale(self, rng, tier):
+        """A FEW LONG histories (quick: 3, thorough: 24 + the 70 000-element sort histories): 1100-1500 elements, then several hundred
+        operations that hit the front, the middle and the back, sweeps with the iterators, and every whole-list operation (sort,
+        sort_in_place, reverse, filter_mut, copies, add_all, splice) on the big list.  Sessions are `obs=sparse phys=quiet`
+        (checksums instead of dumps, an `observe` about every 50 operations).  No callback-log operations (the harness log holds
+        4096 entries) and no zip over the same list (`zip_same_list_excluded`)."""
+        quick = tier == "quick"
+        out = []
+        for h in range(3 if quick else 24):
+            out.append(self.scale_history(rng, 1100 + rng.randrange(401), explicit=(h % 3 == 0)))
+        if not quick:
+            # sorts across the 2^16 boundary (bottom-up merge sorts with a fixed number of bins, index types, recursion depth)
+            for n in (65535, 65536, 65537, 70000):
+                ops = [rng.choice(["new", "new_default"]) + " obs=sparse phys=quiet", f"fill n={n} seed={rng.randrange(1, 1000)}", "observe",
+                       "sort", "observe", "get_first", "get_last", "size"]
+                if self.dbl:
+                    ops += ["sort_in_place cmp=key", "observe", "reverse", "sort_in_place cmp=num", "observe"]
+                ops += ["remove_first", "remove_last", "add 5", "add_first 999999", "sort", "observe", "destroy"]
+                out.append(ops)
+        return out
+
+    def scale_history(self, rng, n, explicit):
+        dbl = self.dbl
+        ops = [rng.choice(["new", "new", "new_default"]) + " obs=sparse phys=quiet"]
+        cur = [0]                                    # shadow of the size of slot 0 (exact enough for position choices)
+        since = [0]
+
+        def emit(op, dsize=0):
+            ops.append(op)
+            cur[0] = max(0, cur[0] + dsize)
+            since[0] += 1
+            if since[0] >= 50:
+                ops.append("observe"); since[0] = 0
+
+        if explicit:
+            # the fill itself exercises the models at every size: appends, prepends and insertions in the middle
+            for i in range(n):
+                r = rng.random()
+                v = (i * 7919 + 13) % 100003
+                if r < 0.8 or cur[0] < 3:
+                    emit(f"add {v}", 1)
+                elif r < 0.9:
+                    emit(f"add_first {v}", 1)
+                else:
+                    emit(f"add_at {v} idx={rng.choice([0, 1, cur[0] // 3, cur[0] // 2, cur[0] - 1])}", 1)
+        else:
+            emit(f"fill n={n} seed={rng.randrange(1, 1000)}", n)
+        ops.append("observe")
+
+        def pos():
+            m = cur[0]
+            return rng.choice([0, 0, 1, m // 3, m // 2, (2 * m) // 3, max(m - 2, 0), max(m - 1, 0), max(m - 1, 0), m, m + 1])
+
+        def point_ops(k):
+            for _ in range(k):
+                r = rng.random()
+                m = cur[0]
+                if r < 0.18:
+                    emit(f"get_at idx={pos()}")
+                elif r < 0.34:
+                    i = pos(); emit(f"remove_at idx={i}", -1 if i < m else 0)
+                elif r < 0.50:
+                    i = pos(); ok = (i <= m) if dbl else (i < m)
+                    emit(f"add_at {rng.randrange(100000)} idx={i}", 1 if ok else 0)
+                elif r < 0.58:
+                    emit(f"replace_at {rng.randrange(100000)} idx={pos()}")
+                elif r < 0.66:
+                    emit(rng.choice(["remove_first", "remove_last"]), -1 if m else 0)
+                elif r < 0.76:
+                    emit(rng.choice([f"add_first {rng.randrange(100000)}", f"add_last {rng.randrange(100000)}"]), 1)
+                elif r < 0.82:
+                    emit(rng.choice(["get_first", "get_last", "size"]))
+                elif r < 0.90:
+                    emit(f"contains {rng.randrange(100003)}")
+                elif r < 0.95:
+                    emit((f"index_of {rng.randrange(100003)} cmp=num" if dbl else f"index_of {rng.randrange(100003)}"))
+                else:
+                    emit(f"remove {rng.randrange(100003)}")          # mostly absent: a full walk
+
+        def sweep(kind, steps):
+            emit(f"{kind}_new")
+            for j in range(steps):
+                emit(f"{kind}_next")
+                r = rng.random()
+                if r < 0.12:
+                    emit(f"{kind}_remove", -1)
+                elif r < 0.22:
+                    emit(f"{kind}_add {rng.randrange(100000)}", 1)
+                    if rng.random() < 0.3:
+                        emit(f"{kind}_add {rng.randrange(100000)}", 1)
+                elif r < 0.30:
+                    emit(f"{kind}_replace {rng.randrange(100000)}")
+                elif r < 0.34:
+                    emit(f"{kind}_index")
+
+        point_ops(120)
+        sweep("it", 90)
+        if dbl:
+            sweep("dit", 90)
+        # whole-list operations on the big list, each followed by point operations at the three regions
+        emit("reverse"); point_ops(25)
+        emit("sort"); point_ops(25)
+        if dbl:
+            emit("sort_in_place cmp=key"); point_ops(20)
+            emit("reverse"); emit("sort_in_place cmp=num"); point_ops(20)
+        emit("mk_copy_shallow to=1"); emit("size o=1"); emit("get_last o=1")
+        emit(f"mk_sub b={cur[0] // 3} e={max(cur[0] - 2, cur[0] // 3)} to=2"); emit("size o=2")
+        emit("mk_filter to=3"); emit("size o=3")
+        emit("zit_new o=0 o2=1")
+        for _ in range(40):
+            emit("zit_next")
+            r = rng.random()
+            if r < 0.1:
+                emit("zit_remove", -1)
+            elif r < 0.2:
+                emit(f"zit_add {rng.randrange(1000)} {rng.randrange(1000)}", 1)
+            elif r < 0.28:
+                emit(f"zit_replace {rng.randrange(1000)} {rng.randrange(1000)}")
+        emit("filter_mut", 0); emit("size")
+        emit("observe")
+        emit("add_all from=2"); emit(f"add_all_at from=3 idx={rng.choice([0, 1, 7])}")
+        emit("drop o=2")
+        if ops[0].startswith("new ") or True:
+            # copies inherit the triple of the source, so these splices stay on one triple
+            emit("splice_at from=1 idx=" + str(rng.choice([0, 1, 5, 64])))
+            emit("size"); emit("size o=1")
+            emit("splice from=3")
+        emit("mk_copy_deep to=2"); emit("get_first o=2"); emit("reverse o=2"); emit("sort o=2")
+        point_ops(40)
+        emit("remove_all o=2"); emit("size o=2")
+        emit("to_array o=3")
+        emit("observe")
+        ops.append("destroy")
+        return ops
+
     def fault_seeds(self, tier):
         """histories whose every allocating operation is worth refusing at every k"""
         A = ["new", "add 1", "add 2", "add 3", "new o=1", "add 7 o=1", "add 8 o=1", "add 9 o=1"]
